@@ -2477,6 +2477,8 @@ impl StorageEngine {
     fn expiration_cleanup_loop(engine: Arc<StorageEngine>) {
         loop {
             thread::sleep(Duration::from_secs(1)); // Check every second
+            #[cfg(ferrous_verif)]
+            verif::wait_step();
             
             for database in &engine.databases {
                 let now = Instant::now();
@@ -2494,6 +2496,9 @@ impl StorageEngine {
                             }
                         }
                     }
+                    
+                    #[cfg(ferrous_verif)]
+                    verif::gate(!expired_keys.is_empty());
                     
                     // Remove expired keys with write lock
                     if !expired_keys.is_empty() {
@@ -2527,6 +2532,8 @@ impl StorageEngine {
                     }
                 }
             }
+            #[cfg(ferrous_verif)]
+            verif::SWEEP_PASSES.fetch_add(1, std::sync::atomic::Ordering::SeqCst);
         }
     }
 }
@@ -2750,4 +2757,76 @@ fn pattern_matches(pattern: &str, text: &str) -> bool {
     }
     
     p_idx == pattern_chars.len()
+}
+
+/// Verification hooks (add-only, compiled only with --cfg ferrous_verif)
+#[cfg(ferrous_verif)]
+pub mod verif {
+    use std::sync::atomic::{AtomicU64, Ordering};
+    /// completed sweeper passes
+    pub static SWEEP_PASSES: AtomicU64 = AtomicU64::new(0);
+    /// 1 = the sweeper waits for SWEEP_STEPS tokens instead of running freely
+    pub static SWEEP_PAUSED: AtomicU64 = AtomicU64::new(0);
+    pub static SWEEP_STEPS: AtomicU64 = AtomicU64::new(0);
+    /// 1 = stop between the collect phase and the delete phase of the next shard with expired keys
+    pub static SWEEP_GATE: AtomicU64 = AtomicU64::new(0);
+    pub static SWEEP_AT_GATE: AtomicU64 = AtomicU64::new(0);
+
+    pub fn wait_step() {
+        while SWEEP_PAUSED.load(Ordering::SeqCst) == 1 {
+            if SWEEP_STEPS.load(Ordering::SeqCst) > 0 {
+                SWEEP_STEPS.fetch_sub(1, Ordering::SeqCst);
+                return;
+            }
+            std::thread::sleep(std::time::Duration::from_millis(2));
+        }
+    }
+    pub fn gate(has_expired: bool) {
+        if has_expired && SWEEP_GATE.load(Ordering::SeqCst) == 1 {
+            SWEEP_AT_GATE.store(1, Ordering::SeqCst);
+            while SWEEP_GATE.load(Ordering::SeqCst) == 1 {
+                std::thread::sleep(std::time::Duration::from_millis(1));
+            }
+            SWEEP_AT_GATE.store(0, Ordering::SeqCst);
+        }
+    }
+}
+
+#[cfg(ferrous_verif)]
+impl StorageEngine {
+    /// (key, stored deadline as remaining ms or -1, indexed deadline as remaining ms or -1) for every
+    /// key present in the data map or in the sweeper's index of database `db`
+    pub fn verif_dump_index(&self, db: DatabaseIndex) -> Vec<(Vec<u8>, i64, i64, bool)> {
+        let mut out = Vec::new();
+        let now = Instant::now();
+        let rem = |t: Instant| -> i64 { if t > now { (t - now).as_millis() as i64 } else { 0 } };
+        if let Some(database) = self.databases.get(db) {
+            for shard in &database.shards {
+                let g = shard.read().unwrap();
+                let mut keys: Vec<&Vec<u8>> = g.data.keys().chain(g.expiring_keys.keys()).collect();
+                keys.sort(); keys.dedup();
+                for k in keys {
+                    let stored = g.data.get(k).and_then(|v| v.metadata.expires_at).map(rem).unwrap_or(-1);
+                    let indexed = g.expiring_keys.get(k).map(|t| rem(*t)).unwrap_or(-1);
+                    out.push((k.clone(), stored, indexed, g.data.contains_key(k)));
+                }
+            }
+        }
+        out.sort();
+        out
+    }
+    /// per shard: (shard index, active watchers, (key, counter) pairs)
+    pub fn verif_dump_watch(&self, db: DatabaseIndex) -> Vec<(usize, usize, Vec<(Vec<u8>, u64)>)> {
+        let mut out = Vec::new();
+        if let Some(database) = self.databases.get(db) {
+            for (i, shard) in database.shards.iter().enumerate() {
+                let g = shard.read().unwrap();
+                let active = g.watch_tracker.active_watchers.load(std::sync::atomic::Ordering::SeqCst);
+                let mut cs: Vec<(Vec<u8>, u64)> = g.watch_tracker.key_counters.read().unwrap().iter().map(|(k, v)| (k.clone(), *v)).collect();
+                cs.sort();
+                if active != 0 || !cs.is_empty() { out.push((i, active, cs)); }
+            }
+        }
+        out
+    }
 }
